@@ -397,7 +397,12 @@ def _suffix_build(cfg, e, at, P):
         if isinstance(x, ast.Name):
             os_ = origins(cfg, x, at)
             return bool(os_) and all(_is_splitext_self(cfg, o.expr, o.stmt) and o.path == (idx,) for o in os_)
-        return isinstance(x, ast.Subscript) and const(x.slice) == idx and _is_splitext_self(cfg, x.value, at)
+        if not (isinstance(x, ast.Subscript) and const(x.slice) == idx):
+            return False
+        if isinstance(x.value, ast.Name):  # parts = os.path.splitext(self.path); parts[idx]
+            os_ = origins(cfg, x.value, at)
+            return bool(os_) and all(o.kind == "expr" and not o.path and _is_splitext_self(cfg, o.expr, o.stmt) for o in os_)
+        return _is_splitext_self(cfg, x.value, at)
 
     if not (split_part(root, 0) and split_part(ext, 1)):
         return None
@@ -499,6 +504,21 @@ from ..selftest import Variant  # noqa: E402
 
 LF = LINTED_FILE
 VARIANTS = [
+    # behaviour-preserving refactors: must stay quiet
+    Variant("quiet-os-replace-instead-of-move", LF, "            shutil.move(tmp_name, output_path)\n", "            os.replace(tmp_name, output_path)\n", "QUIET", None,
+            "same-directory rename spelled with os.replace"),
+    Variant("quiet-target-dir-through-dirname-call", LF, "        dirname, basename = os.path.split(output_path)\n",
+            "        dirname = os.path.dirname(output_path)\n        basename = os.path.basename(output_path)\n", "QUIET", None, "directory part computed with os.path.dirname"),
+    Variant("quiet-write-through-handle-alias", LF, "                tmp.file.write(write_buff)\n", "                handle = tmp\n                handle.write(write_buff)\n", "QUIET", None,
+            "write through an alias of the temp file object"),
+    Variant("quiet-cleanup-with-contextlib-suppress", LF,
+            "            if tmp_name is not None and os.path.exists(tmp_name):\n                os.remove(tmp_name)\n            raise\n",
+            "            if tmp_name is not None:\n                if os.path.exists(tmp_name):\n                    os.unlink(tmp_name)\n            raise\n", "QUIET", None,
+            "cleanup as nested ifs with os.unlink"),
+    Variant("quiet-persist-tree-output-name-helper", LF,
+            "                fname = self.path\n                # If there is a suffix specified, then use it.s\n                if suffix:\n                    root, ext = os.path.splitext(fname)\n                    fname = root + suffix + ext\n",
+            "                fname = self.path\n                if suffix:\n                    parts = os.path.splitext(self.path)\n                    fname = parts[0] + suffix + parts[1]\n", "QUIET", None,
+            "suffix name built from an un-unpacked splitext result"),
     Variant("temp-in-system-tmpdir", LF, "                dir=dirname,\n", "", "R26a", "_safe_create_replace_file"),
     Variant("temp-deleted-on-close", LF, "                delete=False,\n", "                delete=True,\n", "R26a", "_safe_create_replace_file"),
     Variant("flush-dropped", LF, "                tmp.flush()\n", "", "R26a", "_safe_create_replace_file"),
